@@ -69,7 +69,7 @@ def rest_doc():
 
 def strategy(tier):
     p = G.Profile(doc=rest_doc(), p_doc_mostly=True, max_items=6 if tier == "quick" else 9, depth=3, dangling=False,
-                  groups=True, body_max=3, weights={"class": 3, "test": 2, "parseargs": 0, "block": 1},
+                  groups=True, body_max=3, dups=3, weights={"class": 3, "test": 2, "parseargs": 0, "block": 1},
                   set_values=G.weighted((3, G.arglist(0, 4, G.SINGLE_T)),
                                         # one quoted value with escape sequences (no line break in the source)
                                         (1, st.lists(st.sampled_from(['"line\\nbreak@"', '"cr\\r@"', '"tab\\t and \\n@"']), min_size=1, max_size=1))))      # argument values without line breaks (the property's carve-out)
